@@ -251,4 +251,163 @@ theorem compress_refines (cfg : Cfg) (s : Store) (f b : Addr) (fn : Int) (F : Sn
         obtain ⟨r, e1, e2⟩ := hb
         exact ⟨r, _, e1, e2, rfl, rfl⟩
 
+/-! ### Shuffle -/
+
+/-- the pure model of `Shuffle(F, fl, vp, cp)` for arguments that are `'fixed'` (`none`) or explicit sequences:
+the three argument blocks in the code's order, then `Shuffle.core` (C09) -/
+def shufflePure (F : CNF) (fl vp cp : Option (List Int)) : Except Err CNF :=
+  match resolveFlips F.nvars fl with
+  | .error e => .error e
+  | .ok fl' =>
+    match resolveVperm F.nvars vp with
+    | .error e => .error e
+    | .ok vp' =>
+      match resolveCperm F.clauses.length cp with
+      | .error e => .error e
+      | .ok mapping => Shuffle.core F fl' vp' mapping
+
+def argOf : Option (List Int) → Shuffle.Arg
+  | none => .fixed
+  | some l => .explicit l
+
+/-- it is the general model of C09 run without draws -/
+theorem shufflePure_eq_run (F : CNF) (fl vp cp : Option (List Int)) :
+    Shuffle.run F (argOf fl) (argOf vp) (argOf cp) [] = some (shufflePure F fl vp cp, []) := by
+  unfold Shuffle.run shufflePure
+  cases fl with
+  | none =>
+    simp only [argOf, Shuffle.resolveFlips, resolveFlips]
+    cases vp with
+    | none =>
+      simp only [Shuffle.resolveVperm, resolveVperm]
+      cases cp with
+      | none => simp [Shuffle.resolveCperm, resolveCperm]
+      | some c => simp only [Shuffle.resolveCperm, resolveCperm]; cases Shuffle.checkPerm 0 F.clauses.length c <;> rfl
+    | some v =>
+      simp only [Shuffle.resolveVperm, resolveVperm]
+      cases Shuffle.checkPerm 1 F.nvars v with
+      | error e => rfl
+      | ok u =>
+        simp only []
+        cases cp with
+        | none => simp [Shuffle.resolveCperm, resolveCperm]
+        | some c => simp only [Shuffle.resolveCperm, resolveCperm]; cases Shuffle.checkPerm 0 F.clauses.length c <;> rfl
+  | some l =>
+    simp only [argOf, Shuffle.resolveFlips, resolveFlips]
+    cases Shuffle.checkFlips F.nvars l with
+    | error e => rfl
+    | ok u =>
+      simp only []
+      cases vp with
+      | none =>
+        simp only [Shuffle.resolveVperm, resolveVperm]
+        cases cp with
+        | none => simp [Shuffle.resolveCperm, resolveCperm]
+        | some c => simp only [Shuffle.resolveCperm, resolveCperm]; cases Shuffle.checkPerm 0 F.clauses.length c <;> rfl
+      | some v =>
+        simp only [Shuffle.resolveVperm, resolveVperm]
+        cases Shuffle.checkPerm 1 F.nvars v with
+        | error e => rfl
+        | ok u =>
+          simp only []
+          cases cp with
+          | none => simp [Shuffle.resolveCperm, resolveCperm]
+          | some c => simp only [Shuffle.resolveCperm, resolveCperm]; cases Shuffle.checkPerm 0 F.clauses.length c <;> rfl
+
+/-- the four statements `Shuffle` executes on `out` before it looks at its arguments never fail -/
+theorem shuffle_pre_pure (cfg : Cfg) (F : Snap) (f : Addr) :
+    runActsPure F [.copyHeader f, .reshuffled, .describe "Formula reshuffling", .updVar F.numvar] (snap0 cfg) =
+      .ok ⟨F.numvar, [], Shuffle.shuffleHeader F.header, []⟩ := by
+  have hn : ¬ ((F.numvar : Int) < 0) := by omega
+  simp only [runActsPure, Act.pure, hn, if_false, snap0, Int.toNat_natCast, Nat.zero_max]
+  congr 2
+  rw [(addDescription_spec _ _).1]
+  rfl
+
+/-- T-C19.R5 Shuffle with each argument `'fixed'` or an explicit list OBJECT of the caller (`'shuffle'` draws a new
+list and then behaves like an explicit one — C09 `general_call`): same outcome as the pure model of C09, the returned
+object's clauses / variable count are the pure result, its header is `shuffleHeader` of the input's (C09
+`header_entry`), it has no variable groups. -/
+theorem shuffle_refines (cfg : Cfg) (s : Store) (f : Addr) (F : Snap) (fl vp cp : Option Addr)
+    (fl' vp' cp' : Option (List Int)) (hF : snap s f = some F)
+    (h1 : readArg s fl = some fl') (h2 : readArg s vp = some vp') (h3 : readArg s cp = some cp') :
+    match shufflePure F.cnf fl' vp' cp' with
+    | .ok G => ∃ r R, ((Tr.shuffle fl vp cp).apply cfg s f).2 = .ok r ∧
+        snap ((Tr.shuffle fl vp cp).apply cfg s f).1 r = some R ∧ R.cnf = G ∧
+        R.header = Shuffle.shuffleHeader F.header ∧ R.groups = []
+    | .error e => ((Tr.shuffle fl vp cp).apply cfg s f).2 = .error e := by
+  obtain ⟨hsep, hf⟩ := sep_newCNF cfg s f F hF
+  have hpre := shuffle_pre_pure cfg F f
+  unfold Tr.apply
+  simp only [hF, h1, h2, h3]
+  -- the statement list and the deferred argument error
+  have key : ∀ (acts : List Act) (chk : Except Err Unit), (∀ a ∈ acts, a.Covered f) →
+      (match runActsPure F acts (snap0 cfg), chk with
+        | .error e, _ => (match runActs (newCNF cfg s).2 (newCNF cfg s).1 acts with
+            | (s2, .error e) => (s2, Except.error e)
+            | (s2, .ok _) => match chk with
+              | .error e => (s2, .error e)
+              | .ok _ => (s2, .ok (newCNF cfg s).2)).2 = .error e
+        | .ok _, .error e => (match runActs (newCNF cfg s).2 (newCNF cfg s).1 acts with
+            | (s2, .error e) => (s2, Except.error e)
+            | (s2, .ok _) => match chk with
+              | .error e => (s2, .error e)
+              | .ok _ => (s2, .ok (newCNF cfg s).2)).2 = .error e
+        | .ok R', .ok _ => ∃ r, (match runActs (newCNF cfg s).2 (newCNF cfg s).1 acts with
+            | (s2, .error e) => (s2, Except.error e)
+            | (s2, .ok _) => match chk with
+              | .error e => (s2, .error e)
+              | .ok _ => (s2, .ok (newCNF cfg s).2)).2 = .ok r ∧
+            snap (match runActs (newCNF cfg s).2 (newCNF cfg s).1 acts with
+              | (s2, .error e) => (s2, Except.error e)
+              | (s2, .ok _) => match chk with
+                | .error e => (s2, .error e)
+                | .ok _ => (s2, .ok (newCNF cfg s).2)).1 r = some R') := by
+    intro acts chk hc
+    have h := runActs_refines acts (newCNF cfg s).1 (snap0 cfg) hc hsep (snap_newCNF cfg s) hf
+    rcases hp : runActs (newCNF cfg s).2 (newCNF cfg s).1 acts with ⟨s2, res⟩
+    rw [hp] at h
+    cases hr : runActsPure F acts (snap0 cfg) with
+    | error e => simp only [hr] at h ⊢; subst h; rfl
+    | ok R' =>
+      simp only [hr] at h ⊢
+      obtain ⟨e1, e2⟩ := h
+      subst e1
+      cases chk with
+      | error e => rfl
+      | ok u => exact ⟨_, rfl, e2⟩
+  have hcpre : ∀ a ∈ [Act.copyHeader f, .reshuffled, .describe "Formula reshuffling", .updVar F.numvar],
+      a.Covered f := by
+    intro a ha; simp at ha; rcases ha with rfl | rfl | rfl | rfl <;> simp [Act.Covered]
+  unfold shufflePure shuffleActs
+  simp only [Snap.cnf]
+  cases hr1 : resolveFlips F.numvar fl' with
+  | error e => simp only []; have := key _ (.error e) hcpre; simp only [hpre] at this; exact this
+  | ok fl'' =>
+    simp only []
+    cases hr2 : resolveVperm F.numvar vp' with
+    | error e => simp only []; have := key _ (.error e) hcpre; simp only [hpre] at this; exact this
+    | ok vp'' =>
+      simp only []
+      cases hr3 : resolveCperm F.clauses.length cp' with
+      | error e => simp only []; have := key _ (.error e) hcpre; simp only [hpre] at this; exact this
+      | ok mapping =>
+        simp only [Shuffle.core]
+        cases hr4 : Shuffle.substTable F.numvar fl'' vp'' with
+        | error e => simp only []; have := key _ (.error e) hcpre; simp only [hpre] at this; exact this
+        | ok tbl =>
+          simp only []
+          have hcall : ∀ a ∈ [Act.copyHeader f, .reshuffled, .describe "Formula reshuffling", .updVar F.numvar] ++
+              [.loadShuffled f tbl mapping], a.Covered f := by
+            intro a ha; simp at ha; rcases ha with rfl | rfl | rfl | rfl | rfl <;> simp [Act.Covered]
+          have := key _ (.ok ()) hcall
+          rw [runActsPure_append, hpre] at this
+          simp only [runActsPure, Act.pure, Snap.cnf] at this
+          cases hr5 : Shuffle.foldE (Shuffle.loadStep ⟨F.numvar, F.clauses⟩ tbl) ⟨F.numvar, []⟩ mapping with
+          | error e => simp only [hr5] at this ⊢; exact this
+          | ok G =>
+            simp only [hr5] at this ⊢
+            obtain ⟨r, e1, e2⟩ := this
+            exact ⟨r, _, e1, e2, rfl, rfl, rfl⟩
+
 end Cnfgen.C19
